@@ -46,6 +46,22 @@ def run(ctx):
         ctx.count("behaviours_sampled_not_all")
     cases = [_tempo.case_from_behaviour(k, b) for k, b in enumerate(usable)]
     _tempo.judge(ctx, cases, "C11", "TempoMap.tla terminal states (iso-scaled)", lookups=_lookups)
+    # MC + REPLAY: TrackBuild.tla - the hints carried from phrase to phrase, from note to note and from a note's start to its
+    # sustain's end, over every small arrangement of tempo events, phrases and held notes: every stored index governs
+    from props import _notes as _n
+    tb = _n.mc_trackbuild(ctx)
+    if len(tb) > ctx.pick(5000, 60000):
+        tb = r.sample(tb, ctx.pick(5000, 60000))
+    cases = []
+    for k, b in enumerate(tb):
+        sc = r.choice([1, 1, 7, 100])
+        tempo, body = _n.concretise_trackbuild(b, sc, r)
+        c = {"id": f"C11-tb{k}", "res": r.choice([192, 480, 3]), "sync": [("B", t, n) for t, n in tempo] + [("TS", 0, 4)], "events": [],
+             "tracks": {"ExpertSingle": body}}
+        nb = len(tempo)
+        c["lookups"] = [(t * sc + d, h) for t in range(0, 7) for d in (0,) for h in range(0, nb + 2)]
+        cases.append(c)
+    _tempo.judge(ctx, cases, "C11", "TrackBuild.tla terminal states", lookups=_lookups)
     # TRACE: wide-domain charts, sorted and with sections reordered in several ways
     cases = []
     for k in range(ctx.pick(200, 5000)):
